@@ -43,6 +43,15 @@ class Dual:
         self.d = d or {}
 
 
+def ineqe_plain(t):
+    """("ineqe", body, "lb"|"ub", e): `inequality(body, lb=e)` / `inequality(body, ub=e)` with a NON-numeric bound e (Var, Param,
+    Float object or expression).  Its meaning is  e <= body  /  body <= e, i.e. the numeric form applied to `body - e` with bound 0
+    (that is also the expression inequality() builds), so model, truth and tree sides are fed the rewritten term while the real
+    side calls inequality with the expression-valued bound."""
+    body = ("bin", "sub", t[1], t[3])
+    return ("ineq", body, 0.0, None) if t[2] == "lb" else ("ineq", body, None, 0.0)
+
+
 class Truth:
     """evaluates an intended term with dual numbers; records the largest intermediate magnitude and kink distance"""
 
@@ -153,6 +162,8 @@ class Truth:
                 return self.mk(getattr(math, op)(a.v), self.lin(a, s if op == "asin" else -s))
             if op == "atan":
                 return self.mk(math.atan(a.v), self.lin(a, 1.0 / (1.0 + a.v * a.v)))
+        if tag == "ineqe":
+            return self.ev(ineqe_plain(t))
         if tag == "ineq":
             b = self.ev(t[1])
             lo = -math.inf if t[2] is None else t[2]
@@ -200,6 +211,8 @@ def term_tree(t, shared):
         return ("bin", t[1], term_tree(t[2], shared), term_tree(t[3], shared))
     if tag == "un":
         return ("un", t[1], term_tree(t[2], shared))
+    if tag == "ineqe":
+        return term_tree(ineqe_plain(t), shared)
     if tag == "ineq":
         return ("ineq", term_tree(t[1], shared), None if t[2] is None else Fraction(float(t[2])), None if t[3] is None else Fraction(float(t[3])))
     if tag == "ite":
@@ -222,6 +235,9 @@ def term_ops(t, shared, acc):
         for s in t[2:]:
             term_ops(s, shared, acc)
         return acc
+    if tag == "ineqe":
+        acc["inequality_expr_%s" % t[2]] = acc.get("inequality_expr_%s" % t[2], 0) + 1
+        return term_ops(ineqe_plain(t), shared, acc)
     if tag == "ineq":
         acc["inequality"] = acc.get("inequality", 0) + 1
         return term_ops(t[1], shared, acc)
@@ -291,6 +307,15 @@ class Gen:
                                     ("bin", "add", ("var", self.rng.randrange(NV)), ("var", self.rng.randrange(NV)))])
         else:
             body = self.term(depth - 1, shared)
+        if self.rng.random() < 0.25:
+            # a bound that is NOT a number: Param / Var / Float object / small expression (never folds to a native number)
+            rng = self.rng
+            e = rng.choice([("param", rng.randrange(NP)), ("param", rng.randrange(NP)), ("var", rng.randrange(NV)),
+                            ("fobj", rng.choice([0.5, 1.0, -1.0, 2.0])),
+                            ("bin", "add", ("param", rng.randrange(NP)), ("num", rng.choice([0.25, 0.5, -1.0]))),
+                            ("bin", "sub", ("var", rng.randrange(NV)), ("param", rng.randrange(NP))),
+                            ("bin", "mul", ("num", rng.choice([2.0, 0.5, -1.5])), ("var", rng.randrange(NV)))])
+            return ("ineqe", body, rng.choice(["lb", "lb", "ub"]), e)
         r = self.rng.random()
         k = float(self.rng.choice([-1, 0, 0.5, 1, 2]))
         if r < 0.4:
@@ -431,6 +456,10 @@ class Builder:
             return getattr(E, t[1])(a)
         if tag == "ineq":
             return E.inequality(self.build(t[1]), lb=t[2], ub=t[3])
+        if tag == "ineqe":
+            if t[2] == "lb":
+                return E.inequality(self.build(t[1]), lb=self.build(t[3]))
+            return E.inequality(self.build(t[1]), ub=self.build(t[3]))
         if tag == "ite":
             return E.if_else(self.build(t[1]), self.build(t[2]), self.build(t[3]))
         if tag == "cond":
@@ -703,6 +732,8 @@ def boundary_targets(t, shared, out):
     tag = t[0]
     if tag == "ref":
         return boundary_targets(shared[t[1]], shared, out)
+    if tag == "ineqe":
+        return boundary_targets(ineqe_plain(t), shared, out)
     if tag == "ineq":
         for bd in (t[2], t[3]):
             if bd is None:
@@ -724,6 +755,26 @@ def boundary_targets(t, shared, out):
     elif tag == "ite":
         for s in t[1:]:
             boundary_targets(s, shared, out)
+    return out
+
+
+def ineqe_nodes(t, shared, out):
+    """the inequalities with a non-numeric bound inside a term (shared sub-terms resolved)"""
+    if not isinstance(t, tuple) or not t:
+        return out
+    if t[0] == "ref":
+        return ineqe_nodes(shared[t[1]], shared, out)
+    if t[0] == "ineqe":
+        out.append(t)
+    if t[0] == "cond":
+        for c, e in t[1]:
+            if c is not None:
+                ineqe_nodes(c, shared, out)
+            ineqe_nodes(e, shared, out)
+        return out
+    for s in t[1:]:
+        if isinstance(s, tuple):
+            ineqe_nodes(s, shared, out)
     return out
 
 
@@ -784,6 +835,14 @@ def make_history(rng, quick, nops=None):
                 if live_ok(trial, shared, vv, pv):
                     hist.append(("add", ncid, t, "tmpdict"))
                     hist.append(("del", ncid))
+                    if rng.random() < 0.75:
+                        # the DETACHED dict is used on: a new constraint is stored in it / its old key is deleted.  It belongs to
+                        # no model any more, so the model (constraint set, residual vector, Jacobian) must not notice
+                        for _try2 in range(6):
+                            t2 = g.term(rng.choice([1, 2]), shared)
+                            if has_leaf(t2, shared):
+                                hist.append(("detuse", ncid, t2, rng.choice(["set", "set+del", "set+del", "del"])))
+                                break
                     ncid += 1
                     dirty = True
                     break
@@ -1044,6 +1103,7 @@ class Run:
             elif path == "tmpdict":
                 cdx = A.ConstraintDict()
                 cdx[cid] = con                      # not registered yet: the dict belongs to no model
+                self._cdx = cdx
                 self.m.cdx = cdx                    # Model.__setattr__ registers every constraint of the dict
             else:
                 self.m.cd[cid] = con
@@ -1083,6 +1143,8 @@ class Run:
         pix = [self.refl.par_ix[id(p)] for p in ps]
         rec = {"term": term, "con": con, "path": path, "conditional": conditional, "vars": vix, "params": pix,
                "floats": [self.refl.fid(f) for f in fs], "float_objs": fs, "obj": obj}
+        if path == "tmpdict":
+            rec["cdx"] = self._cdx
         self.live[cid] = rec
         brs = []
         try:
@@ -1116,6 +1178,8 @@ class Run:
         except Exception as e:
             self.fail("remove-exception-%s" % type(e).__name__, "removing a constraint raised %s: %s" % (type(e).__name__, e), i, cid=cid)
             raise Stop()
+        if rec["path"] == "tmpdict":
+            self.detached = (cid, rec["cdx"])
         if rec["path"] == "tmpdict" and rec["con"] in self.m._con_ccon_map:
             self.fail("delattr-constraintdict-keeps-constraints",
                       "`del m.<ConstraintDict attribute>` removed the attribute but its constraint is still registered with the "
@@ -1124,6 +1188,52 @@ class Run:
         self.count("removed")
         self.dirty = True
         self.mops.append(("del", cid))
+
+    def _registry(self):
+        m = self.m
+        return {"constraints": len(m._con_ccon_map), "cons()": len(list(m.cons())), "C vars": len(m._var_cvar_map),
+                "C params": len(m._param_cparam_map), "C floats": len(m._float_cfloat_map), "refcounts": sorted(m._refcounts.values()),
+                "vars with C object": [v._c_obj is not None for v in self.vars]}
+
+    def op_detuse(self, i, cid, term, how="set+del"):
+        """the ConstraintDict that `del m.<dict>` detached from the model is used on as a free-standing dict: a new constraint is
+        stored in it and/or its old key is deleted.  Neither may raise, neither may change what is registered with the model, and
+        set_structure / evaluate_residuals / evaluate_jacobian of the model go on as if nothing had happened (the following
+        struct/check ops see to that: the model side of the history does not contain this op)."""
+        det = getattr(self, "detached", None)
+        if det is None or det[0] != cid:
+            return
+        cdx = det[1]
+        self.detached = None
+        try:
+            obj = self.builder.build(totuple(term))
+        except Exception:
+            return
+        if type(obj) in (int, float, bool):
+            return
+        before = self._registry()
+        con = self.A.Constraint(obj)
+        step = None
+        try:
+            if "set" in how:
+                step = "storing a new constraint in"
+                cdx["n%d" % cid] = con
+            if "del" in how:
+                step = "deleting the old key of"
+                del cdx[cid]
+        except Exception as e:
+            self.fail("detached-constraintdict-still-wired",
+                      "%s a ConstraintDict that was removed from the model with `del m.<dict>` raised %s: %s" % (step, type(e).__name__, e),
+                      i, cid=cid, how=how, term=term)
+            raise Stop()
+        after = self._registry()
+        if after != before or con in self.m._con_ccon_map:
+            diff = ", ".join("%s %s -> %s" % (k, before[k], after[k]) for k in before if before[k] != after[k])
+            self.fail("detached-constraintdict-still-wired",
+                      "using (%s) a ConstraintDict that was removed from the model with `del m.<dict>` changed what is registered with "
+                      "the model: %s (a phantom residual row)" % (how, diff), i, cid=cid, how=how, term=term)
+            raise Stop()
+        self.count("detached_dict_reused(%s)" % how)
 
     def op_dupadd(self, i, cid, term):
         """insert a constraint under an OCCUPIED name / key: must raise ValueError and leave the model as it was"""
@@ -1380,6 +1490,23 @@ class Run:
         key = "%s-value" % what
         why = ""
         vals_now = None
+        # an inequality with a NON-numeric bound whose truth value (on the expression layer, at the current values) is not that of
+        # `lb <= body` / `body <= ub`: the wrong branch is selected whatever the evaluator does afterwards
+        for sub in ineqe_nodes(rec["term"], self.shared, []):
+            try:
+                tv = self.truth(sub)[0].v
+                cobj = self.builder.build(sub)
+                cv = float(cobj if type(cobj) in (bool, int, float) else cobj.evaluate())
+            except Exception:
+                continue
+            if cv != tv:
+                self.fail("inequality-expression-bound-branch",
+                          "%s of constraint %d%s: evaluator %r, true %r [inequality(body, %s=<non-numeric bound>) is %r where %s is %r]" % (
+                              what, cid, "" if var is None else " w.r.t. var %d" % var, got, want, sub[2], cv,
+                              "bound <= body" if sub[2] == "lb" else "body <= bound", tv),
+                          i, cid=cid, var=var, observed=got, expected=want, term=rec["term"], condition=sub,
+                          values={"vars": list(self.vv), "params": list(self.pv)})
+                return
         if what == "residual":
             obj = rec["obj"]
             exprs = (list(obj._conditions) + list(obj._exprs)) if rec["conditional"] else [obj]
@@ -1727,7 +1854,7 @@ def shrink(wntr, hist, key, budget=60):
                 continue
             cand = cur[:i] + cur[i + 1:]
             if cur[i][0] == "add":
-                cand = [op for op in cand if not (op[0] == "del" and op[1] == cur[i][1])]
+                cand = [op for op in cand if not (op[0] in ("del", "detuse") and op[1] == cur[i][1])]
             budget -= 1
             if fails(cand):
                 cur, changed = cand, True
@@ -1748,7 +1875,7 @@ def shrink(wntr, hist, key, budget=60):
             yield c
         if t[0] in ("bin", "un", "ite"):
             for k in range(1 if t[0] == "ite" else 2, len(t)):
-                if isinstance(t[k], tuple) and t[k][0] not in ("ineq",):
+                if isinstance(t[k], tuple) and t[k][0] not in ("ineq", "ineqe"):
                     for r in rewrites(t[k]):
                         yield t[:k] + (r,) + t[k + 1:]
 
